@@ -69,13 +69,17 @@ Theorem C04_matrix_antisymmetric : forall cy nz mt m (l : list train),
 Proof. exact Lem_Multi.spike_directionality_matrix_antisymmetric. Qed.
 Print Assumptions C04_matrix_antisymmetric.
 
-(* synfire indicator = twice the upper-triangle sum of D over (N-1) times the number of spikes, both backends *)
+(* synfire indicator = twice the upper-triangle sum of D over (N-1) times the number of spikes
+   (normalize = true), or twice the upper-triangle sum of D itself (normalize = false), both backends *)
 Theorem C04_synfire_relation : forall eps cy nz mt m ts te (l : list train),
   (cy = false -> 0 < eps) -> Lem_OrderSpec.os_common ts te l -> (2 <= length l)%nat ->
   0 < sumF ROps (map Lem_OrderSpec.os_nsp l) ->
   spike_train_order_multi ROps eps cy false nz mt m l None =
-  Ok (2 * Lem_Multi.psum (fun a b => Lem_Multi.valOf (spike_directionality ROps eps cy false false mt m a b)) l
-      / ((INR (length l) - 1) * sumF ROps (map Lem_OrderSpec.os_nsp l))).
+  Ok (if nz then
+        2 * Lem_Multi.psum (fun a b => Lem_Multi.valOf (spike_directionality ROps eps cy false false mt m a b)) l
+        / ((INR (length l) - 1) * sumF ROps (map Lem_OrderSpec.os_nsp l))
+      else
+        2 * Lem_Multi.psum (fun a b => Lem_Multi.valOf (spike_directionality ROps eps cy false false mt m a b)) l).
 Proof. exact Lem_OrderSpec.synfire_relation. Qed.
 Print Assumptions C04_synfire_relation.
 
